@@ -83,6 +83,9 @@ def gen_case(rng, c, tag):
     world = {"seed": f"{tag}/world", "mix": mix, "n": n, "interval": interval}
     bars = n // 5 if interval == "5min" else n
     k = rng.choice([2, 3, 3, 4, 4, 5, 6])
+    if rng.random() < 0.12:
+        # many more strategies than workers: a pool hands such task lists out in chunks (more than 4 x workers tasks)
+        k = rng.choice([9, 10, 13])
     kinds = []
     while True:
         kinds = [rng.choice(KINDS[mix]) for _ in range(k)]
